@@ -304,6 +304,7 @@ STD_ENUMS = {
     "Cow": ["Borrowed", "Owned"], "Ordering": ["Less", "Equal", "Greater"],
     "SeekFrom": ["Start", "End", "Current", "Data", "Hole"],
     "Component": ["Prefix", "RootDir", "CurDir", "ParentDir", "Normal"],
+    "IntErrorKind": ["Empty", "InvalidDigit", "PosOverflow", "NegOverflow", "Zero"],
 }
 
 
@@ -569,6 +570,13 @@ class Engine:
             if m2:
                 cand = "<%s as %s>::%s" % (strip_generics(m2.group(1)).split("::")[-1],
                                            strip_generics(m2.group(2)).split("::")[-1], m2.group(3))
+                if cand in self.funcs:
+                    return self.eval_const_item(st, self.funcs[cand])
+            # generic functions: `m::f::<impl Trait>::promoted[0]` is dumped as `f::promoted[0]`
+            t2 = re.sub(r"::<[^<>]*(?:<[^<>]*>[^<>]*)*>", "", t)
+            segs = t2.split("::")
+            for i in range(len(segs)):
+                cand = "::".join(segs[i:])
                 if cand in self.funcs:
                     return self.eval_const_item(st, self.funcs[cand])
             raise EngineAbort("promoted constant %r not found in the MIR dump" % t)
